@@ -470,6 +470,20 @@ pub fn seeds() -> Vec<(String, Vec<u8>)> {
         }
         v.push((format!("cpc/seed12345/lg{lg_k}/x{mult}"), s.serialize()));
     }
+    // hostile compressed theta images: the delta width byte at and around 64, with a payload long enough for it
+    for &n in &[8usize, 9, 40] {
+        let entries = super::ser_theta::make_entries(n, 40, sm.next());
+        let theta = entries[n - 1] + 10;
+        for bits in [62u8, 63, 64, 65] {
+            let mut img = thspec::encode_v4(&entries, theta, sh);
+            img[3] = bits;
+            let want = 8 * n + 64;
+            while img.len() < 24 + want {
+                img.push(sm.next() as u8);
+            }
+            v.push((format!("theta/hostile/v4/n{n}/bits{bits}"), img));
+        }
+    }
     let mut t = ThetaSketch::builder().lg_k(9).build();
     for _ in 0..3000 {
         t.update(sm.next());
@@ -560,7 +574,7 @@ pub fn seeds() -> Vec<(String, Vec<u8>)> {
 // =========================================================================================
 // input generation
 
-const BOUNDARY: [u64; 18] = [0, 1, 2, 3, 7, 8, 0x7f, 0x80, 0xff, 0x100, 0x7fff, 0xffff, 0x7fff_ffff, 0x8000_0000, 0xffff_ffff, 0x7fff_ffff_ffff_ffff, 0xffff_ffff_ffff_fffe, u64::MAX];
+const BOUNDARY: [u64; 23] = [0, 1, 2, 3, 7, 8, 31, 32, 33, 63, 64, 0x7f, 0x80, 0xff, 0x100, 0x7fff, 0xffff, 0x7fff_ffff, 0x8000_0000, 0xffff_ffff, 0x7fff_ffff_ffff_ffff, 0xffff_ffff_ffff_fffe, u64::MAX];
 
 /// Deterministic catalogue for one seed image.
 pub fn catalogue(seed_img: &[u8], out: &mut Vec<Vec<u8>>) {
